@@ -346,6 +346,19 @@ pub fn corpus<G: GroupApi>(tier: Tier, seed: u64) -> Corpus {
                 push(&mut set, &mut items, Fmt::Compressed, v);
             }
         }
+        // cofactor 1: every curve point is a member. Valid encodings of points chosen by x (tiny x, 256^k, zero bytes
+        // inside): coordinates with many leading zero bytes
+        for x in crate::grp::c10_g1_xs(Tier::Quick) {
+            let y2 = (x.modpow(&n(3), q()) + n(5)) % q();
+            if let Some(y) = refmodel::sqrt_mod(&y2, q()) {
+                for yy in [y.clone(), (q() - &y) % q()] {
+                    let pt = Pt::Aff(G::rf_from_n(&x), G::rf_from_n(&yy));
+                    for f in Fmt::ALL {
+                        push(&mut set, &mut items, f, G::ref_encode(&pt, f).unwrap());
+                    }
+                }
+            }
+        }
     }
     Corpus { items }
 }
@@ -594,6 +607,19 @@ pub fn c09_run(run: &Run) {
             }
             x = x.add(&F2::one());
         }
+    }
+    // the origin and its neighbours ((0,0) is the "point at infinity" of other libraries' encodings; it is on no curve here)
+    for (x, y, w) in [
+        (F2::zero(), F2::zero(), "(0,0)"),
+        (F2::zero(), F2::one(), "(0,1)"),
+        (F2::one(), F2::zero(), "(1,0)"),
+        (F2 { a: N::zero(), b: n(1) }, F2::zero(), "(u,0)"),
+        (F2::zero(), F2 { a: N::zero(), b: n(1) }, "(0,u)"),
+    ] {
+        g2c.push((x, y, w.into()));
+    }
+    if let Some(y) = refmodel::b2().sqrt() {
+        g2c.push((F2::zero(), y, "(0, sqrt(b))".into()));
     }
     let h = &c.twist_cof;
     let tw = twist_points(run.tier.pick(4, 128));
